@@ -1,5 +1,172 @@
-//! byte-exact tie of the concrete FAT model (stub until the model is built): called from fs.rs::post_step
-//! after every executed operation (`w.last_op` describes it) and once after format (`w.last_op == None`)
-use super::fs::{Drv, Verdicts, World};
+//! Byte-exact tie of the concrete FAT model (Lean `Model/Fs/Fat.lean`, driver family `fsf`): called from
+//! `fs.rs::post_step` after every executed operation on a FAT volume in a flat container (`w.last_op` describes
+//! the operation; `None` = nothing executed, queries only).
+//!
+//! The saved image has already been mirrored into the driver (`fs set`).  The model keeps its own state (image +
+//! FAT buffer).  At the first call of a history the model formats a blank image itself and is compared with a
+//! freshly formatted real volume of the same configuration (the boot sector — jump, OEM name, BPB, volume id —
+//! is a parameter of the model's `format` and comes from that real image).  Then, after every step: the
+//! operation with the arguments passed to the real call and the real result class is applied to the model state;
+//! the model's flushed image must equal the mirror unit for unit.  Also after every step: `stat().free_blocks`,
+//! the catalog rows of the root and of the directory the operation addressed, and after a successful put the
+//! fetched file (extension, attribute, eof, number of chunks, checksum of all chunk bytes); `get` of a missing
+//! path: the same error class.  Switch off with `A2V_NO_FSFAT=1`.
+use super::fs::{make_volume, Drv, Focus, OpRecord, Verdicts, World};
+use crate::util::*;
+use a2kit::fs::FileImage;
+use std::collections::BTreeMap;
 
-pub fn after_step(_drv: &mut Drv, _w: &mut World, _vd: &mut Verdicts, _desc: &str) {}
+/// result class of a real FAT operation in the vocabulary of the model (`Err.token`)
+fn err_tok(e: &str) -> String {
+    match e {
+        "general" => "general", "read fault" => "readfault", "sector not found" => "sectornotfound", "write fault" => "writefault",
+        "write protect" => "writeprotect", "invalid command line parameter" => "invalidswitch", "File allocation table bad" => "badfat",
+        "file not found" => "filenotfound", "duplicate file name" => "duplicatefile", "insufficient disk space" => "diskfull",
+        "no room in directory" => "directoryfull", "directory not empty" => "directorynotempty", "syntax" => "syntax",
+        "first cluster invalid" => "firstclusterinvalid", "incorrect DOS version" => "incorrectdos", "unable to access sector" => "imgerr",
+        "PANIC" => "panic",
+        _ => return format!("other({})", e.replace(' ', "_")),
+    }.to_string()
+}
+fn res_tok(r: &Result<(), String>) -> String { match r { Ok(()) => "ok".to_string(), Err(e) => format!("err:{}", err_tok(e)) } }
+
+/// `pack_tenths`, `pack_time`, `pack_date` of a2kit's FAT module, recomputed from the (pinned) clock
+fn stamp() -> String {
+    use chrono::{Datelike, Timelike};
+    let now = chrono::Local::now().naive_local();
+    let year = now.year().clamp(1980, 2107);
+    let date = now.day() as u16 + ((now.month() as u16) << 5) + ((year as u16 - 1980) << 9);
+    let time = (now.second() as u16) / 2 + ((now.minute() as u16) << 5) + ((now.hour() as u16) << 11);
+    let tenths = (now.and_utc().timestamp_subsec_millis() / 100) as u8 + 10 * (now.second() % 2) as u8;
+    format!("{} {} {}", tenths, hx(&time.to_le_bytes()), hx(&date.to_le_bytes()))
+}
+
+fn adler(chunks: &BTreeMap<usize, Vec<u8>>) -> u64 {
+    let (mut a, mut b) = (1u64, 0u64);
+    for (_, c) in chunks { for x in c { a = (a + *x as u64) % 65521; b = (b + a) % 65521; } }
+    b * 65536 + a
+}
+fn get_answer(r: &Result<Result<FileImage, String>, String>) -> String {
+    match r {
+        Ok(Ok(g)) => { let cs: BTreeMap<usize, Vec<u8>> = g.chunks.iter().map(|(k, v)| (*k, v.clone())).collect(); format!("ok {} {} {} {} {}", hx(&g.fs_type), g.access.first().cloned().unwrap_or(0), g.get_eof(), cs.len(), adler(&cs)) }
+        Ok(Err(e)) => format!("err:{}", err_tok(e)),
+        Err(_) => "err:panic".to_string(),
+    }
+}
+
+fn verdict(vd: &mut Verdicts, w: &World, pass: bool, kind: &str, detail: &str) {
+    let hist = w.hist.clone();
+    for f in [Focus::C01, Focus::C02, Focus::C03, Focus::C05] {
+        if pass { vd.v(f, true, "concrete-model", "", &[]); } else { vd.v(f, false, &format!("concrete-model:{}", kind), detail, &hist); }
+    }
+}
+
+/// send one request to the concrete model; `expect` = the real answer of a query, None = a mutating operation
+/// (the driver compares result class and the whole flushed image with the mirror and answers `ok`)
+fn tie(drv: &mut Drv, w: &World, vd: &mut Verdicts, req: &str, expect: Option<String>, desc: &str) {
+    let ans = drv.ask(&format!("fsf {}", req));
+    let want = expect.unwrap_or("ok".to_string());
+    if ans == want { verdict(vd, w, true, "", ""); return; }
+    let kind = if ans.starts_with("bad result") { "result" } else if ans.starts_with("bad sector") || ans.starts_with("bad flush") { "image" } else { req.split(' ').next().unwrap_or("?") }.to_string();
+    let short: String = req.chars().take(160).collect();
+    verdict(vd, w, false, &kind, &format!("concrete FAT model disagrees after [{}]: request [{}] model answered [{}] expected [{}]", desc, short, ans, want));
+}
+
+/// the freshly formatted real image, run-length described: `a-b=BB` for uniform units, `i:hex` otherwise
+fn describe_img(bytes: &[u8]) -> (usize, String) {
+    let units: Vec<&[u8]> = bytes.chunks(512).collect();
+    let mut items: Vec<String> = Vec::new();
+    let mut i = 0;
+    while i < units.len() {
+        let u = units[i];
+        if u.iter().all(|b| *b == u[0]) {
+            let mut j = i;
+            while j + 1 < units.len() && units[j + 1].iter().all(|b| *b == u[0]) { j += 1; }
+            if u[0] != 0 { items.push(format!("{}-{}={:02X}", i, j, u[0])); }
+            i = j + 1;
+        } else { items.push(format!("{}:{}", i, hx(u))); i += 1; }
+    }
+    (units.len(), items.join(" "))
+}
+
+/// first call of a history: the model formats its own blank image and is compared with a fresh real format
+fn format_tie(drv: &mut Drv, w: &World, vd: &mut Verdicts) {
+    let fresh = guarded(|| make_volume(&w.cfg).map(|mut d| d.get_img().to_bytes()));
+    match fresh {
+        Ok(Ok(bytes)) => {
+            let (n, img) = describe_img(&bytes);
+            tie(drv, w, vd, &format!("format {} {} {} ok {}", n, hx(b"VERIF"), stamp(), img), None, "format");
+        }
+        _ => vd.out.count("fsfat-format-unavailable"),
+    }
+}
+
+fn request(op: &OpRecord) -> Option<String> {
+    let real = res_tok(&op.result);
+    let p = hx(op.spelled.as_bytes());
+    Some(match op.kind {
+        "put" => {
+            let ok = op.result.is_ok();
+            let cs = if op.chunks.is_empty() { "-".to_string() } else { op.chunks.iter().map(|(i, c)| if ok { format!("{}:{}", i, hx(c)) } else { format!("{}:-", i) }).collect::<Vec<_>>().join(",") };
+            format!("put {} {{CL}} {} {} {} {} {} {}", p, hx(&le_eof(op.eof)), hx(&op.access), hx(&op.created), hx(&op.modified), real, cs)
+        }
+        "delete" | "lock" | "unlock" => format!("{} {} {}", op.kind, p, real),
+        "rename" => format!("rename {} {} {}", p, hx(op.arg2.as_bytes()), real),
+        "retype" => format!("retype {} {} {}", p, match op.arg2.as_str() { "sys" | "reg" | "hid" | "vis" => op.arg2.as_str(), _ => "other" }, real),
+        "mkdir" => format!("mkdir {} {} {}", p, stamp(), real),
+        _ => return None,
+    })
+}
+/// the `eof` vector of a FAT file image (4 bytes, little endian)
+fn le_eof(eof: usize) -> Vec<u8> { (eof as u32).to_le_bytes().to_vec() }
+
+fn cat_answer(rows: &[String]) -> String {
+    // `universal_row`: "{:4} {:5}  {}" = type, blocks, name
+    let items: Vec<String> = rows.iter().map(|r| {
+        let typ = r.get(..4).unwrap_or("").trim_end().to_string();
+        let rest = r.get(5..).unwrap_or("").trim_start();
+        match rest.split_once("  ") { Some((n, name)) => format!("{}:{}:{}", hx(typ.as_bytes()), n, hx(name.as_bytes())), None => match rest.strip_suffix("  ") { Some(n) => format!("{}:{}:-", hx(typ.as_bytes()), n), None => format!("?{}", r.replace(' ', "_")) } }
+    }).collect();
+    format!("ok {}", if items.is_empty() { "-".to_string() } else { items.join(",") })
+}
+
+pub fn after_step(drv: &mut Drv, w: &mut World, vd: &mut Verdicts, desc: &str) {
+    if std::env::var("A2V_NO_FSFAT").is_ok() || w.cfg.container != "img" { return; }
+    let first = drv.ask("fsf ready") != "yes";
+    if first { format_tie(drv, w, vd); }
+    let op = w.last_op.clone();
+    if let Some(op) = &op {
+        if let Some(req) = request(op) {
+            let req = req.replace("{CL}", &w.chunk_len.to_string());
+            tie(drv, w, vd, &req, None, desc);
+        }
+    }
+    // queries: free count, catalog of the root and of the directory addressed, the file just stored.  Free count and
+    // catalog are functions of the image, which the operation tie has just compared: ask only after a step that
+    // reported success (and once at the start)
+    let changed = first || desc.ends_with("=> ok");
+    if changed {
+        if let Ok(f) = w.free() { tie(drv, w, vd, "free", Some(format!("ok {}", f)), desc); }
+        let mut dirs = vec!["/".to_string()];
+        if let Some(op) = &op { if let Some(i) = op.spelled.rfind('/') { if i > 0 { dirs.push(op.spelled[..i].to_string()); } } }
+        for dpath in dirs {
+            match guarded(|| w.disk.catalog_to_vec(&dpath).map_err(|e| e.to_string())) {
+                Ok(Ok(rows)) => tie(drv, w, vd, &format!("cat {}", hx(dpath.as_bytes())), Some(cat_answer(&rows)), desc),
+                Ok(Err(e)) => tie(drv, w, vd, &format!("cat {}", hx(dpath.as_bytes())), Some(format!("err:{}", err_tok(&e))), desc),
+                Err(_) => {}
+            }
+        }
+    }
+    if let Some(op) = &op {
+        // (large files: the harness's own get-after-put oracle reads them back; the model's `get` of a long chain is slow)
+        if op.kind == "put" && op.result.is_ok() && op.chunks.len() <= 48 {
+            let res = w.get(&op.spelled);
+            tie(drv, w, vd, &format!("get {}", hx(op.spelled.as_bytes())), Some(get_answer(&res)), desc);
+        }
+    }
+    if desc.starts_with("get-missing ") {
+        let name = desc.splitn(2, ' ').nth(1).unwrap_or("").split(" => ").next().unwrap_or("").to_string();
+        let res = w.get(&name);
+        tie(drv, w, vd, &format!("get {}", hx(name.as_bytes())), Some(get_answer(&res)), desc);
+    }
+}
